@@ -6,6 +6,7 @@ CONSTANTS
   KIND <- t_KIND
   REGISTERED <- t_REGISTERED
   HOLDOPS <- t_HOLDOPS
+  HOOKED <- t_HOOKED
   DECI <- t_DECI
   PRICE <- t_PRICE
   PDEC <- t_PDEC
